@@ -92,6 +92,19 @@ def run (ctx):
       good = any('not in self._masks' in f for f in fs)
       ctx.ob('R-DOM', gi, "a port found through the original set is returned only if its number is not masked", good,
              "guarded by `port_no not in self._masks`" if good else "chained result returned without consulting the masks (facts %s): deleted ports are still found" % fs, (mod, r), 'D1')
+  # by evaluation, for both kinds of key: the original set knows port 2 as 'eth1', port 2 was deleted (masked), nothing local
+  for key, kd in ((2, "number"), ('eth1', "name")):
+    is_chain_get = lambda e: isinstance(e, ast.Subscript) and norm(e.value) == 'self._chain' and isinstance(e.ctx, ast.Load)
+    is_chain_call = lambda e: isinstance(e, ast.Call) and isinstance(e.func, ast.Attribute) and norm(e.func.value) == 'self._chain'
+    env = q.Env({gi.params[1]: key, 'self._ports': [], 'self._masks': {2}, 'self._chain': '<original>'}, [(is_chain_get, q.Rec(port_no=2, name='eth1')), (is_chain_call, q.Rec(port_no=2, name='eth1'))])
+    ends_ = [n for n in g.nodes if n.kind in ('return', 'raise_stmt')]
+    kinds = set()
+    for p_, e_ in q.paths_under(repo, mod, g, env, g.entry, ends_, pc, limit=60): kinds.add(p_[-1].kind)
+    if not kinds:
+      ctx.undecided('R-DOM', gi, "a deleted port is not found by %s" % kd, "lookup not evaluable", gi, 'D1')
+    else:
+      ctx.ob('R-DOM', gi, "a deleted port is not found by %s" % kd, kinds == {'raise_stmt'}, "lookup of masked port 2 by %s raises" % kd if kinds == {'raise_stmt'} else
+             "port 2 ('eth1') of the original set was deleted, yet looking it up by %s (%r) can end in a return: the mask is compared with the key instead of the found port's number, so a deleted port stays reachable under its %s" % (kd, key, kd), gi, 'D1')
   ends = [n for n in g.nodes if n.kind == 'raise_stmt']
   falls = g.exit in g.reachable(g.entry, avoid=[n for n in g.nodes if n.kind in ('return', 'raise_stmt')], exc=False)
   ctx.ob('R-EFFECT', gi, "a missing key raises instead of yielding None", bool(ends) and not falls, "falls through to raise IndexError" if not falls else "lookup can fall off the end and return None: membership tests succeed for absent ports", gi, 'D1')
